@@ -910,7 +910,8 @@ def m_duplicates(s, rng):
             c = copy.deepcopy(s)
             get(c, addr)['elems'].append({'k': 'type', 'name': x['name'], 'prim': 'uint8'})
             yield Mut(c, 'duplicate', 'duplicateCompositeElement', path + [x['name']], 'member of %s composite' % kind, 'reject', '')
-            if x['name'].swapcase() != x['name'] and x['name'].swapcase() not in [y['name'] for y in e['elems']]:
+            if x['name'].swapcase() != x['name'] and x['name'].swapcase() not in [y['name'] for y in e['elems']] \
+                    and in_header(s, addr) != 'data':
                 c = copy.deepcopy(s)
                 get(c, addr)['elems'].append({'k': 'type', 'name': x['name'].swapcase(), 'prim': 'uint8'})
                 yield Mut(c, 'duplicate', None, path, 'member of %s composite' % kind, 'accept',
